@@ -203,7 +203,7 @@ func (w *c10World) build(r *core.Rng, fault, policy string, yr int) c10Case {
 		}
 		for _, f := range w.files {
 			v := r.Chance(3, 4)
-			mixed := len(f.ifaces) >= 2 && r.Chance(1, 4)
+			mixed := len(f.ifaces) >= 2 && r.Chance(1, 2)
 			all := true
 			for _, n := range f.ifaces {
 				vi := v
@@ -485,7 +485,7 @@ func firstBlocked(designated map[string]bool, before world.Snapshot, cs c10Case)
 
 func RunC10(c *core.Ctx) int {
 	c.PrepareRepo(true)
-	nWorlds, perWorld := 10, 33
+	nWorlds, perWorld := 24, 33
 	budget := 170 * time.Second
 	if c.Tier == "thorough" {
 		nWorlds, perWorld = 200, 66
